@@ -8,7 +8,7 @@ from harness import core, py2lean, instantiate
 from harness.core import Outcome, f2b, b2f
 
 ID = "C02"
-LEAN_TARGETS = ["BeyondVerif.Props.C02", "BeyondVerif.Witness.C02"]
+LEAN_TARGETS = ["BeyondVerif.Props.C02", "BeyondVerif.Props.C02Centre", "BeyondVerif.Props.C02Kin", "BeyondVerif.Witness.C02"]
 THEOREMS = [
     "BeyondVerif.C02.rot1_isRotation",
     "BeyondVerif.C02.rot2_isRotation",
@@ -25,6 +25,7 @@ THEOREMS = [
     "BeyondVerif.C02.const_matrices_orthonormal",
     "BeyondVerif.C02.const_matrices_invertible",
     "BeyondVerif.C02.providers_match",
+    "BeyondVerif.C02.kinematic_guard_pinned",
     "BeyondVerif.C02.expand_apply",
     "BeyondVerif.C02.expand_inv_mul",
     "BeyondVerif.C02.norm_preserved",
@@ -37,6 +38,40 @@ THEOREMS = [
     "BeyondVerif.C02.orientConvert_compose",
     "BeyondVerif.C02.orientConvert_inverse",
     "BeyondVerif.C02.transform_roundtrip_same_centre",
+    "BeyondVerif.R.edgeBuiltin_oneDir",
+    "BeyondVerif.R.edgesOK_edge",
+    "BeyondVerif.C02.builtin_edges_invertible",
+    "BeyondVerif.C02.edgesOK_model",
+    "BeyondVerif.C02.orientConvert_compose_model",
+    "BeyondVerif.C02.orientConvert_inverse_model",
+    "BeyondVerif.C02.lof_isRotation",
+    "BeyondVerif.R.centreFold_chain",
+    "BeyondVerif.R.centerConvert_retarget",
+    "BeyondVerif.C02.offset_chain",
+    "BeyondVerif.C02.offset_antisymm",
+    "BeyondVerif.C02.offset_retarget",
+    "BeyondVerif.C02.transform_roundtrip",
+    "BeyondVerif.C02.transform_compose",
+    "BeyondVerif.C02.transform_roundtrip_model",
+    "BeyondVerif.C02.transform_compose_model",
+    "BeyondVerif.C02.transform_calls_pinned",
+    "BeyondVerif.C02.velocity_is_derivative_general",
+    "BeyondVerif.C02.angular_velocity_exists",
+    "BeyondVerif.C02.earth_rotation_edges_kinematic",
+    "BeyondVerif.C02.earth_rate_consistent",
+    "BeyondVerif.C02.era_rate_consistent",
+    "BeyondVerif.C02.rate_mismatch_defect",
+    "BeyondVerif.R.RotPath.mul",
+    "BeyondVerif.C02.slow_edge_omitted",
+    "BeyondVerif.C02.precession_rotPath",
+    "BeyondVerif.C02.precession_omitted_bound",
+    "BeyondVerif.R.lofQsw_derivAt",
+    "BeyondVerif.R.lofTnw_derivAt",
+    "BeyondVerif.C02.lof_velocity_defect",
+    "BeyondVerif.C02.lof_velocity_iff",
+    "BeyondVerif.C02.lof_static_no_defect",
+    "BeyondVerif.C02.lof_rate_planar",
+    "BeyondVerif.C02.lof_rate_twobody",
     "BeyondVerif.C02.velocity_is_derivative",
     "BeyondVerif.C02.earth_rotation_rate",
     "BeyondVerif.Memo.run_eq_map",
@@ -52,41 +87,55 @@ THEOREMS = [
     "BeyondVerif.C02W.full_key_memo_sound",
 ]
 LEVEL_TEXT = ("Lean theorems over R about a model of beyond/frames whose formulas (rot1/2/3, precession/nutation arguments, GMST, ERA, rate, CIO matrix, "
-              "constant matrices, station matrix) are translated from the Python AST on every run: every rot and every product of rots is a proper rotation "
-              "for all angles, the CIO matrix for all X^2+Y^2<1, the constant matrices are orthonormal to 1e-15; expand(R,w)(r,v) = (R r, R v - w x R r) and its "
-              "inverse; norms preserved; d/dt(R(t) r(t)) equals the velocity block for rate=(0,0,-theta') (HasDerivAt, all differentiable theta, r); "
-              "A->B->C = A->C and A->B->A = 1 for the convert_to loop along every link history grown leaf by leaf (induction; any carrier with an "
-              "associative product), instantiated for the model's orientConvert with paths from the C20 routing model. "
+              "constant matrices, station matrix, to_qsw / to_tnw, the guard of the kinematic terms) AND whose glue (the loops of Orientation.convert_to and Center.convert_to: which element a direct / "
+              "a reverse provider contributes, the order of accumulation; Center._to_parent; Frame.transform: m @ x + offset and the arguments of its two calls) are read from the Python AST on every run. "
+              "Rotations: every rot, every product of rots, the CIO matrix (X^2+Y^2<1), to_local(QSW/TNW).T (pos x vel != 0) are proper rotations; the constant matrices are orthonormal to 1e-15. "
+              "Path independence: A->B->C = A->C and A->B->A = 1 for the convert_to loop along every link history grown leaf by leaf (induction, any associative carrier), UNCONDITIONALLY for the model's "
+              "own edge function (edgesOK_model: EdgesOK assembled from provider_isRotation, const_matrices_invertible, edgeBuiltin_oneDir and a well-formedness condition on stations / orbit-attached orientations). "
+              "Different centres: Center.convert_to is the same loop over the additive algebra of states (centreFold_chain), hence antisymmetric and additive in one target orientation (offset_antisymm, offset_chain), "
+              "and carried by the rotation between two target orientations (offset_retarget); Frame.transform A->B->A = identity and A->B->C = A->C for any frames of the model with different centres AND "
+              "orientations (transform_roundtrip, transform_compose, _model versions without hypothesis on the edges; a concrete station / orbit-attached scenario satisfies every hypothesis). "
+              "Kinematics: for ANY differentiable matrix path R with R' = [w]x R, d/dt(R r) is the velocity block of expand(R, -w) (velocity_is_derivative_general); along a path of rotations w exists "
+              "(angular_velocity_exists); instance for the two Earth-rotation edges; the constant of rate() vs d(GMST)/dt (7.0e-12 .. 7.2e-12 rad/s apart on |T| <= 0.5 century: the precession in right ascension) and vs "
+              "d(ERA)/dt (1e-19 rad/s), LOD factor included; what a rate mismatch and what a provider returning (m, None) for a moving m cost in velocity (rate_mismatch_defect, slow_edge_omitted; MOD->EME2000: "
+              "<= 1.02e-11 rad/s x |r| from the regenerated polynomial). Orbit-attached QSW / TNW frames: d/dt to_local = -[w]x to_local with w = lofRate(p, v, a) for ANY acceleration (lofQsw_derivAt, lofTnw_derivAt), "
+              "so the converted velocity the code returns differs from the derivative of the converted position by exactly w x rho, and equals it iff w x rho = 0 (lof_velocity_defect, lof_velocity_iff; "
+              "two-body: h/r^2 resp. mu h/(r^3 v^2) about W) - the two open findings, quantified; nothing is missing for a reference without propagator (lof_static_no_defect). "
               "History independence: the model of a process carries the memoizer of beyond/utils/memoize.py as a state machine (Memo.run) and the one date-dependent memo "
-              "the frames have (iau1980._nutation_series, keyed since deb035a by (TT century, terms): all the series reads); Memo.sound_iff: a memoized function answers every history "
-              "like the bare function iff its key determines its value; session_history_independent (unconditional): for every history of earlier conversions the result of a conversion "
+              "the frames have (iau1980._nutation_series, keyed since deb035a by (TT century, terms)); session_history_independent (unconditional): for every history of earlier conversions the result of a conversion "
               "is callPure = a function of (instant + EOP record of the date, frame graph, the two frames) alone; Witness: the former key (text of the date) made it false. "
-              "Orbit-attached local orbital frames are in the model as the code builds them (LofSpec: a copy of the reference converted to the parent, at its own date when it has no propagator). "
-              "The hand-written glue (which rot in which order, EOP units, series folds, centres, Frame.transform, the memo) is tied by differential correspondence on HISTORIES of calls "
-              "under five EOP configurations sharing their instants.")
+              "The remaining hand-written glue (which rot in which order, EOP units, series folds, LofSpec, the memo) is tied by differential correspondence on HISTORIES of calls under five EOP configurations sharing their instants.")
 LEVEL_NOTE = ("R -> double gap and time-scale arithmetic (Date -> TT/UT1 centuries; the model is given text + record offsets, reconciled to 2 ulp of the JD with Date.change_scale) are outside the theorems; "
-              "agreement with independent GMST/ERA/precession/nutation/polar motion and IAU1980 vs IAU2010 < 0.1 arcsec are oracle-only; the memo model covers Orientation.convert_to "
+              "agreement with independent GMST/ERA/precession/nutation/polar motion and IAU1980 vs IAU2010 < 0.1 arcsec are oracle-only; the rates of nutation and of the CIO series are bounded only in terms of "
+              "the rates of their angles (RotPath.mul), not numerically; the memo model covers Orientation.convert_to "
               "(Frame.transform histories are compared call by call with the pure model, justified by session_history_independent on histories satisfying its hypothesis); "
-              "Lean kernel + propext/Classical.choice/Quot.sound; py2lean and harness trusted")
-TECHNIQUE = "Lean 4 proof (ring identities, HasDerivAt, induction over link histories and over call histories, decide/norm_num on regenerated tables) + differential correspondence on call sequences"
+              "Lean kernel + propext/Classical.choice/Quot.sound; py2lean, the _Glue reader and the harness trusted")
+TECHNIQUE = "Lean 4 proof (ring identities modulo r^2 = p.p, HasDerivAt, induction over link histories and over call histories, potential argument on a multiplicative and an additive algebra, interval arithmetic with pi to 20 digits, decide/norm_num on regenerated tables) + differential correspondence on call sequences"
 TRUSTED = [
     "harness/py2lean.py: translates rot1/rot2/rot3, _precesion, _nutation arguments, _sideral (1980/2010), rate, _planets, X/Y/s polynomials, precesion_nutation, "
-    "G50/GCRF constant matrices, TopocentricOrientation._m, _geodetic_to_cartesian into Generated/FrameFormulas{F,R}.lean on every run",
-    "harness/props/C02.py extract: list of A_to_B methods of class Orientation (AST) -> Generated/OrientProviders.lean; orientHist from C20's extractor",
+    "G50/GCRF constant matrices, TopocentricOrientation._m, _geodetic_to_cartesian, to_qsw / to_tnw (translate_vec_function) into Generated/FrameFormulas{F,R}.lean on every run",
+    "harness/props/C02.py _Glue: reads the loops of Orientation.convert_to / Center.convert_to, Center._to_parent and Frame.transform from the AST (one statement shape each, anything else is refused) "
+    "-> Generated/FrameGlue.lean; extract: the guard of the kinematic terms of iau1980.equinox (operator and day) -> equinoxKinematic; list of A_to_B methods of class Orientation -> "
+    "Generated/OrientProviders.lean; orientHist from C20's extractor",
     "harness/props/C02.py Scenario: the specification of the frame graph and the independent numpy formulas (QSW/TNW axes, station axes, geodetic coordinates) the model inputs are derived from",
     "harness/props/C02.py indep_record / pure_times: the EOP record of each of the five configurations from an own column parse of the IERS files and an own leap second table; "
     "TT / UT1 of a date from its text and that record with python datetime arithmetic (microseconds)",
-    "lean/templates/Frames.tpl, Mat3.tpl, Model/Chain.lean, Model/Memo.lean (hand-written glue: provider products, EOP units, series folds, convert_to loop, centres, transform, memoizer, "
-    "which routes consult the _nutation memo), tied by the correspondence run",
-    "np.linalg.inv is modelled by the exact inverse (adjugate/determinant, block form); numpy / libm double arithmetic vs R: tolerance 1e-10 relative on matrices",
+    "lean/templates/Frames.tpl, Mat3.tpl, Model/Chain.lean, Model/Memo.lean (hand-written: provider products, EOP units, series folds, lofRate, LofSpec, the routing of the two loops through Node.steps, "
+    "the memoizer, which routes consult the _nutation memo), tied by the correspondence run",
+    "np.linalg.inv is modelled by the exact inverse (adjugate/determinant, block form); numpy / libm double arithmetic vs R: observed agreement a few ulp, tolerance 1e-12 relative on orientation matrices",
     "Node routing model of C20 (Model/Node.lean) for the paths; C20.path_valid_chain",
 ]
 ASSUMPTIONS = [
     "the date enters the model as (TT century, UT1 century, UT1 JD, day number, EOP record, series sums): time-scale conversion is C03's subject",
-    "EOP values are piecewise constant per day (SimpleEopDatabase, by design): Earth-fixed positions jump by up to ~1 m at midnight; the velocity oracle avoids windows straddling a day boundary",
-    "orientConvert_compose / _inverse assume EdgesOK (every provided edge matrix is inverted by T6.inv, no link has providers in both directions); "
-    "provider_isRotation + const_matrices_invertible + providers_match give this for the built-in providers, the assembly into EdgesOK for `edge` is not done in Lean",
-    "cioMat_isRotation needs X^2+Y^2 < 1 (in 1973-2017: < 1e-5)",
+    "EOP values are piecewise constant per day (SimpleEopDatabase, by design): Earth-fixed positions jump by up to ~1 m at midnight; the velocity oracle avoids windows straddling a day boundary; "
+    "within a day polar motion and dX/dY do not move, so nothing is omitted for them by the code's own position map",
+    "edgesOK_model / the _model theorems need X^2+Y^2 < 1 for the CIO matrix (in 1973-2017: < 1e-5) and ExtrasOK: a dynamically registered orientation is a new node (index beyond the built-in names), "
+    "hangs below an orientation created before it and has an invertible matrix (stations: topoMat_isRotation; QSW/TNW: lof_isRotation when pos x vel != 0)",
+    "transform_roundtrip / transform_compose need the centre history grown leaf by leaf, no pair of centres linked in both directions (CLinksOneDir) and every centre link convertible to the orientations "
+    "involved (LinksReach: the orientation graph is connected); all three hold by construction of Center.add_link / orbit2frame / create_station and are shown for a concrete scenario",
+    "the kinematic theorems take the reference of an orbit-attached frame as a twice differentiable point (p' = v, v' = a): true for Kepler / numerical propagation; the analytical J2 propagator's velocity "
+    "is not the derivative of its position (secular drift of the elements) - such arcs are excluded from the lof-rate correspondence",
+    "earth_rate_consistent / precession_omitted_bound hold on |T| <= 0.5 Julian century from J2000 (1950-2050) and for LOD below one day",
     "velocity of body-centred frames (Moon, Sun) depends on the body's own velocity, a +-1 day difference quotient (C18): excluded from the velocity oracle",
     "a Date is created under the configuration it is used under (a Date keeps the record it was created with, change_scale looks the new scale up again: C03)",
     "the axes of a QSW/TNW frame attached to a reference WITHOUT propagator are built from the reference converted to the parent frame at the reference's own date, not at the date of the conversion "
@@ -98,20 +147,24 @@ NOT_COVERED = [
     "(independent numpy formulas evaluated with the independently known EOP record of the current configuration)",
     "IAU-1980 chain vs IAU-2010 chain < 0.1 arcsec: oracle only (106- and ~3000-term series; no theorem)",
     "EOP file readers (Finals, Finals2000A, TaiUtc) on the real IERS files: oracle only (independent column parse)",
-    "d(GMST)/dt vs the constant in rate(): not proved (DESIGN earth_rate_consistent); the oracle's finite-difference check covers it to 1e-3 m/s",
+    "numeric bounds on the rates of the nutation matrix, of the equation of the equinoxes and of the CIO matrix (series with table rows supplied at run time): only the structural bound "
+    "|rate| <= sum of the angle rates (RotPath.mul, slow_edge_omitted); the oracle's finite-difference check covers the total to 1e-3 m/s",
     "iau1980.nutation with eop_correction=True (not used by the frame providers): correspondence (c02nutc: series + the eop_correction tail translated from the source) and oracle; no theorem beyond nutCorrected_of_record",
 ]
 OPEN = [
-    "transform_roundtrip for frames with different centres: only the algebraic core (affine_roundtrip) and the same-centre case are proved; "
-    "the antisymmetry of Center.convert_to across two target orientations is checked by correspondence and oracle only",
-    "EdgesOK for the model's concrete `edge` function is a hypothesis of orientConvert_compose/_inverse (see assumptions)",
-    "velocity_is_derivative is proved for R(t) = rot3(-theta(t)) (the two Earth-rotation edges); the slow precession/nutation/polar-motion rates are omitted by the code by design (5e-5 m/s) and by the theorem",
-    "the memo machine (sessionRun) models Orientation.convert_to; which memo keys a whole Frame.transform touches (centre links, orbit-attached providers converting their reference) is not modelled — "
+    "the two LOF findings stay open in /repo (C02-lof-no-rate-qsw / -tnw): the model follows the code (no rate), lof_velocity_defect states the missing term exactly, the oracle accepts a discrepancy only if it IS "
+    "that term; proposed_fixes/C02-lof-rate.diff (rate from p, v and the measured acceleration; none for a fixed point) makes the velocity oracle pass for every kind of attached frame",
+    "the routing itself (which steps Node.steps returns) is C20's model, used through C20.path_valid_chain: the theorems hold for whatever walk the routing returns, they do not say it is the shortest",
+    "the memo machine (sessionRun) models Orientation.convert_to; which memo keys a whole Frame.transform touches (centre links, orbit-attached providers converting their reference) is not modelled - "
     "irrelevant by session_history_independent (the memo is invisible), so Frame.transform histories are compared call by call",
     "'the reference handed to orbit2frame is left unchanged' and 'a repeated conversion gives the same numbers' hold in the model by construction (conversions are functions of read-only specifications); "
     "for the code they are checked by correspondence and oracle on every kind of reference, not proved about the Python objects",
+    "resolveLofs (how the axes of an orbit-attached orientation are obtained from its reference: LofSpec) is hand-written and tied by correspondence only; the compose / round-trip theorems take the resolved matrices as given extras",
 ]
 RULE = ("correspondence: the real code is driven through HISTORIES of conversions in one process, nothing of the library reset in between: (A1) fresh instants under each of five EOP configurations "
+        "[(A1b) the days around MJD 50506 where the kinematic terms switch on, through PEF<->TOD, ITRF->EME2000, TEME->PEF, GCRF->ITRF; Center.convert_to ALONE (c02cen): centre a -> centre b in the orientation of a third frame, "
+        "then the reverse request, then the same request towards another orientation, on the same centre objects, in every kind of visit; d/dt of the real to_local by Richardson differences along synthetic paths with an "
+        "acceleration in any direction and along arcs of the real Kepler propagator vs the model's -[w]x to_local (c02lofrate); orientation matrices to 1e-12 relative] "
         "(real IERS files through SimpleEopDatabase / zero EOP / EOP missing with policy pass / a second registered database selected by eop.dbname / EopDb.get patched), (A2) the SAME instants under "
         "all five configurations in varying orders, each (configuration, instant) visited repeatedly, with fresh and re-used Date objects and repeated requests — UTC texts "
         "and TAI texts under all five, (A3) a history of Orientation.convert_to calls as ONE request to the model carrying the _nutation_series memo (c02seq), (A4) the same names registered "
@@ -125,7 +178,7 @@ RULE = ("correspondence: the real code is driven through HISTORIES of conversion
         "an exception of the implementation where the model converts is a disagreement; dates 1973-2017 (15 % around the branch day MJD 50506, 10 % beyond the tables); "
         "rtol 1e-10 on matrices, 1e-9 relative on states; non-trivial = source != target. "
         "oracle: A->B->C vs A->C and A->B->A (1e-6 m, 1e-9 m/s + double resolution at the largest distance), orthonormality/det/block form, |r| preserved, "
-        "Richardson central difference (20/40 s) of the converted position vs converted velocity; with the EOP record of the CURRENT configuration known independently (UT1 = text + ut1_utc, TT = text + tai_utc + 32.184 s): "
+        "Richardson central difference (20/40 s) of the converted position vs converted velocity - for an orbit-attached QSW/TNW frame the discrepancy must be zero or exactly -w x rho with w = h/r^2 resp. a.(c x v)/(h v^2) about W (acceleration of the reference measured on its own arc), anything else is family velocity-lof-term:*; the kinematic terms of the equation of the equinoxes isolated (equinox(kinematic=True) - equinox(kinematic=False)) to 1e-12 deg, the switch days every run; with the EOP record of the CURRENT configuration known independently (UT1 = text + ut1_utc, TT = text + tai_utc + 32.184 s): "
         "date.eop = that record, PEF->TOD angle vs GMST82 + independent equation of the equinoxes (own 106-term series, kinematic terms from 1997-02-27) to 1 mas, TIRF->CIRF vs ERA to 1 mas, rate block vs lod, "
         "polar motion 1980/2010 vs x, y, nutation (with and without dPsi/dEps), TEME equinox, precession, CIO X - dX / Y - dY equal across configurations — on fresh instants (matrix level) and on the same "
         "instants under all five configurations in varying orders through StateVector.copy (family suffix :after-other-configuration); 1980 vs 2010 < 0.1 arcsec, EOP reader vs independent parse, attached-frame "
@@ -152,6 +205,133 @@ def flit(v):
     return py2lean.Tr().expr(ast.Constant(float(v)))
 
 
+# ---------------------------------------------------------------- the glue of the three loops, read from the AST
+
+class _Glue:
+    """A dedicated reader for the three pieces of glue of the frame machinery — the loop of `Orientation.convert_to`, the loop of
+    `Center.convert_to` (+ `Center._to_parent`) and `Frame.transform`.  Each is matched against the ONE statement shape it has today and
+    turned into a generic Lean term (Generated/FrameGlue.lean) the hand-written model is built from: which element a direct / a reverse
+    provider contributes, in which order the product / the sum is accumulated, what `Frame.transform` combines.  Any other shape raises
+    Untranslatable (the check then reports the translator as broken and widens the oracle)."""
+
+    def __init__(self):
+        self.ori, self.cen, self.frm = _src("frames", "orient.py"), _src("frames", "center.py"), _src("frames", "frames.py")
+
+    @staticmethod
+    def body(path, qual):
+        fn = py2lean.find_function(ast.parse(open(path).read()), qual)
+        return [st for st in fn.body if not (isinstance(st, ast.Expr) and isinstance(st.value, ast.Constant))]
+
+    @staticmethod
+    def u(node):
+        return ast.unparse(node)
+
+    def term(self, e, env):
+        """expression over the names of `env` with `@`, `+`, unary `-`, np.linalg.inv, np.asarray"""
+        src = self.u(e)
+        if src in env:
+            return env[src]
+        if isinstance(e, ast.BinOp) and isinstance(e.op, ast.MatMult):
+            return f"(mul {self.term(e.left, env)} {self.term(e.right, env)})"
+        if isinstance(e, ast.BinOp) and isinstance(e.op, ast.Add):
+            return f"(add {self.term(e.left, env)} {self.term(e.right, env)})"
+        if isinstance(e, ast.UnaryOp) and isinstance(e.op, ast.USub):
+            return f"(neg {self.term(e.operand, env)})"
+        if isinstance(e, ast.Call) and self.u(e.func) == "np.linalg.inv" and len(e.args) == 1 and not e.keywords:
+            return f"(inv {self.term(e.args[0], env)})"
+        if isinstance(e, ast.Call) and self.u(e.func) == "np.asarray" and len(e.args) == 1 and not e.keywords:
+            return self.term(e.args[0], env)
+        raise py2lean.Untranslatable(f"glue: expression `{src}` is not built from the known names with @, +, unary -, np.linalg.inv")
+
+    def loop(self, path, qual, var, init_src, steps_src, direct_call, reverse_call):
+        """the `for a, b in <steps>: if hasattr(self, direct): X = … elif hasattr(self, reverse): X = … else: raise; <accumulate>` loop:
+        returns (term of the direct branch, term of the reverse branch, accumulation statement)"""
+        stmts = self.body(path, qual)
+        inits = [st for st in stmts if isinstance(st, ast.Assign) and self.u(st.targets[0]) == var]
+        if len(inits) != 1 or self.u(inits[0].value) != init_src:
+            raise py2lean.Untranslatable(f"{qual}: `{var}` does not start as `{init_src}`")
+        loops = [st for st in stmts if isinstance(st, ast.For)]
+        if len(loops) != 1 or self.u(loops[0].target) != "(a, b)" or self.u(loops[0].iter) != steps_src or loops[0].orelse:
+            raise py2lean.Untranslatable(f"{qual}: no single `for a, b in {steps_src}` loop")
+        if not isinstance(stmts[-1], ast.Return) or self.u(stmts[-1].value) != var or stmts.index(loops[0]) != len(stmts) - 2:
+            raise py2lean.Untranslatable(f"{qual}: the loop is not followed by `return {var}`")
+        body = loops[0].body
+        if [self.u(st) for st in body[:2]] != ["direct = f'{a}_to_{b}'", "reverse = f'{b}_to_{a}'"]:
+            raise py2lean.Untranslatable(f"{qual}: direct / reverse are not `a_to_b` / `b_to_a`")
+        ifs = [st for st in body if isinstance(st, ast.If)]
+        if len(ifs) != 1 or len(body) != 4 or body[2] is not ifs[0]:
+            raise py2lean.Untranslatable(f"{qual}: loop body is not <names>; if/elif/else; <accumulate>")
+        top = ifs[0]
+        if self.u(top.test) != "hasattr(self, direct)" or len(top.orelse) != 1 or not isinstance(top.orelse[0], ast.If):
+            raise py2lean.Untranslatable(f"{qual}: first test is not hasattr(self, direct)")
+        el = top.orelse[0]
+        if self.u(el.test) != "hasattr(self, reverse)" or len(el.orelse) != 1 or not isinstance(el.orelse[0], ast.Raise):
+            raise py2lean.Untranslatable(f"{qual}: second test is not hasattr(self, reverse) / no raise in the else branch")
+        out = []
+        for br, call in ((top.body, direct_call), (el.body, reverse_call)):
+            if len(br) != 1 or not isinstance(br[0], ast.Assign) or len(br[0].targets) != 1:
+                raise py2lean.Untranslatable(f"{qual}: a branch is not one assignment")
+            out.append((self.u(br[0].targets[0]), self.term(br[0].value, {call: "E"})))
+        if out[0][0] != out[1][0]:
+            raise py2lean.Untranslatable(f"{qual}: the two branches assign different names")
+        return out[0][0], out[0][1], out[1][1], body[3]
+
+    def text(self):
+        # Orientation.convert_to
+        x, d, r, acc = self.loop(self.ori, "Orientation.convert_to", "m", "np.identity(6)", "self.steps(new_orient)",
+                                 "expand(*getattr(self, direct)(date))", "expand(*getattr(self, reverse)(date))")
+        if not (isinstance(acc, ast.Assign) and self.u(acc.targets[0]) == "m"):
+            raise py2lean.Untranslatable("Orientation.convert_to: the accumulation is not `m = …`")
+        upd = self.term(acc.value, {x: "M", "m": "m"})
+        # Center.convert_to
+        y, cd, cr, cacc = self.loop(self.cen, "Center.convert_to", "out", "np.zeros(6)", "self.node.steps(new_center)",
+                                    "getattr(self, direct)(date, orientation)", "getattr(self, reverse)(date, orientation)")
+        if not (isinstance(cacc, ast.AugAssign) and isinstance(cacc.op, ast.Add) and self.u(cacc.target) == "out"):
+            raise py2lean.Untranslatable("Center.convert_to: the accumulation is not `out += …`")
+        cupd = f"(add out {self.term(cacc.value, {y: 'o'})})"
+        # Center._to_parent: the last statement
+        tp = self.body(self.cen, "Center._to_parent")[-1]
+        if not isinstance(tp, ast.Return):
+            raise py2lean.Untranslatable("Center._to_parent: no final return")
+        tpt = self.term(tp.value, {"self.orientation.convert_to(date, orientation)": "m", "res": "res"})
+        # Frame.transform
+        ft = self.body(self.frm, "Frame.transform")
+        calls = {}
+        for st in ft:
+            if isinstance(st, ast.Assign) and isinstance(st.value, ast.Call) and self.u(st.targets[0]) in ("offset", "m"):
+                if st.value.keywords:
+                    raise py2lean.Untranslatable("Frame.transform: keyword arguments")
+                calls[self.u(st.targets[0])] = (self.u(st.value.func), [self.u(a) for a in st.value.args])
+        comb = [st for st in ft if isinstance(st, ast.Assign) and self.u(st.targets[0]) == "new_orb[:]"]
+        first = ft[0]
+        if set(calls) != {"offset", "m"} or len(comb) != 1 or self.u(first) != "new_orb = orbit.copy(form='cartesian')":
+            raise py2lean.Untranslatable("Frame.transform: not `new_orb = orbit.copy(form='cartesian')`; offset = …; m = …; new_orb[:] = …")
+        ct = self.term(comb[0].value, {"m": "m", "new_orb": "x", "offset": "off"})
+        q = lambda xs: "[" + ", ".join('"' + t + '"' for t in xs) + "]"
+        return ("/- GENERATED by harness/props/C02.py (_Glue) from beyond/frames/{orient,center,frames}.py — do not edit. -/\n"
+                "namespace BeyondVerif.Generated.Glue\n"
+                "/-- `Orientation.convert_to`, direct provider found: `" + x + " = expand(*getattr(self, direct)(date))` (E = the expanded provider value) -/\n"
+                f"def orientDirect {{α : Type}} (inv : α → α) (E : α) : α := {d}\n"
+                "/-- … reverse provider found -/\n"
+                f"def orientReverse {{α : Type}} (inv : α → α) (E : α) : α := {r}\n"
+                f"/-- the accumulation `{self.u(acc)}`, starting from `np.identity(6)` -/\n"
+                f"def orientUpdate {{α : Type}} (mul : α → α → α) (M m : α) : α := {upd}\n"
+                "/-- `Center.convert_to`, direct link found (E = what `<a>_to_<b>(date, orientation)` returned) -/\n"
+                f"def centreDirect {{β : Type}} (neg : β → β) (E : β) : β := {cd}\n"
+                "/-- … reverse link found -/\n"
+                f"def centreReverse {{β : Type}} (neg : β → β) (E : β) : β := {cr}\n"
+                f"/-- the accumulation `{self.u(cacc)}`, starting from `np.zeros(6)` -/\n"
+                f"def centreUpdate {{β : Type}} (add : β → β → β) (out o : β) : β := {cupd}\n"
+                f"/-- `Center._to_parent`: `{self.u(tp)}` -/\n"
+                f"def centreToParent {{α β : Type}} (mul : α → β → β) (m : α) (res : β) : β := {tpt}\n"
+                f"/-- `Frame.transform`: `{self.u(comb[0])}` -/\n"
+                f"def transformCombine {{α β : Type}} (mul : α → β → β) (add : β → β → β) (m : α) (x off : β) : β := {ct}\n"
+                "/-- the two calls of `Frame.transform`: (callee, arguments) of `offset = …` and of `m = …` -/\n"
+                f"def transformCalls : List (String × List String) := [(\"{calls['offset'][0]}\", {q(calls['offset'][1])}), (\"{calls['m'][0]}\", {q(calls['m'][1])})]\n"
+                "end BeyondVerif.Generated.Glue\n")
+
+
+
 def extract(ctx):
     """Generated/FrameFormulas{F,R}.lean: every closed-form formula of the frame providers, translated from the Python AST;
     Generated/OrientProviders.lean: which `A_to_B` methods class Orientation defines (source order)."""
@@ -176,6 +356,18 @@ def extract(ctx):
     if set(corr) != {"delta_psi", "delta_eps"}:
         raise py2lean.Untranslatable("_nutation: the eop_correction tail does not correct exactly delta_psi and delta_eps")
     parts.append(f"/-- what `_nutation(date, True, terms)` adds to (Δψ, Δε) of the series, degrees -/\ndef nutCorr80 (dpsi_mas deps_mas : R) : List R :=\n  [{corr['delta_psi']}, {corr['delta_eps']}]\n")
+    # the guard of the kinematic terms of the equation of the equinoxes: `if date.d >= 50506 and kinematic:` (operator and day from the AST)
+    eqx = py2lean.find_function(ast.parse(open(i80).read()), "equinox")
+    guards = [st.test for st in eqx.body if isinstance(st, ast.If)]
+    ops = {ast.GtE: "≥", ast.Gt: ">", ast.LtE: "≤", ast.Lt: "<"}
+    if not (len(guards) == 1 and isinstance(guards[0], ast.BoolOp) and isinstance(guards[0].op, ast.And) and len(guards[0].values) == 2
+            and isinstance(guards[0].values[0], ast.Compare) and ast.unparse(guards[0].values[0].left) == "date.d" and len(guards[0].values[0].ops) == 1
+            and type(guards[0].values[0].ops[0]) in ops and isinstance(guards[0].values[0].comparators[0], ast.Constant)
+            and ast.unparse(guards[0].values[1]) == "kinematic"):
+        raise py2lean.Untranslatable("equinox: the guard of the kinematic terms is not `date.d <cmp> <day> and kinematic`")
+    cmp_ = guards[0].values[0]
+    parts.append(f"/-- the guard of the kinematic terms of `iau1980.equinox`: `if {ast.unparse(guards[0])}:` -/\nabbrev equinoxKinematic (day : R) (kinematic : Bool) : Prop :=\n"
+                 f"  (day {ops[type(cmp_.ops[0])]} ({flit(cmp_.comparators[0].value) if isinstance(cmp_.comparators[0].value, float) else '(' + str(int(cmp_.comparators[0].value)) + ' : R)'})) ∧ kinematic = true\n")
     parts.append(py2lean.translate_slice(i80, "_sideral", ["t"], ["theta"], "gmstDeg80", stop_before=is_if))
     parts.append(py2lean.translate_function(i80, "rate", ["lod_ms"], "rate80", consts={"date.eop.lod": "lod_ms"}))
     parts.append(py2lean.translate_slice(i10, "_earth_orientation", ["ttt"], ["s_prime"], "sPrime10"))
@@ -189,8 +381,19 @@ def extract(ctx):
     parts.append(py2lean.translate_attr_assign(ori, "TopocentricOrientation.__init__", "_m", ["lat", "lon"], "topoMat", funcs=ROTS, mat3=True))
     parts.append(py2lean.translate_function(sta, "TopocentricFrame._geodetic_to_cartesian", ["lat", "lon", "alt"], "geodetic",
                                             consts={"Earth.r": flit(consts_mod.Earth.r), "Earth.e": flit(consts_mod.Earth.e)}))
-    ch = py2lean.instantiate(core.LEAN, "FrameFormulas", "\n".join(parts), "beyond/utils/matrix.py, beyond/frames/{iau1980,iau2010,orient,stations}.py",
+    # the local orbital frames (numpy vector code of beyond/frames/local.py): rows of to_qsw / to_tnw over the V3 / M3 of Mat3.tpl
+    loc = _src("frames", "local.py")
+    for fn_, ln_ in (("to_qsw", "lofQsw"), ("to_tnw", "lofTnw")):
+        parts.append(py2lean.translate_vec_function(loc, fn_, ln_).replace("M3.mk ", "M3.ofRows "))
+    ch = py2lean.instantiate(core.LEAN, "FrameFormulas", "\n".join(parts), "beyond/utils/matrix.py, beyond/frames/{iau1980,iau2010,orient,stations,local}.py",
                              imports=("Model.Mat3",))
+    # the glue: loops of Orientation.convert_to / Center.convert_to, Center._to_parent, Frame.transform
+    glue_error = None
+    try:
+        if core.write_if_changed(os.path.join(core.LEAN, "BeyondVerif", "Generated", "FrameGlue.lean"), _Glue().text()):
+            ch.append("Generated/FrameGlue.lean")
+    except py2lean.Untranslatable as e:     # reported after everything else has been regenerated
+        glue_error = e
     # provider directions
     tree = ast.parse(open(ori).read())
     cls = py2lean.find_function(tree, "Orientation")
@@ -203,6 +406,8 @@ def extract(ctx):
     from harness.props import C20   # Generated/Graphs.lean (orientHist: the `+` operations of orient.py in execution order)
     ch += C20.extract(ctx) or []
     ch += instantiate.main()
+    if glue_error is not None:
+        raise glue_error
     return ch
 
 
@@ -417,6 +622,7 @@ def make_orbit(kepl, date, frame="EME2000"):
 
 
 _pool = []
+_pool_last = []
 
 
 def attached_frames(rng, date):
@@ -432,6 +638,7 @@ def attached_frames(rng, date):
                 out[name] = orbit2frame(name, ref, orientation=ori, parent=EME2000, exists_warning=False)
             _pool.append((out, ref))
     out, ref = rng.choice(_pool)
+    _pool_last[:] = [ref]
     return out, ref.propagate(date)
 
 
@@ -874,6 +1081,16 @@ def earth_rotation_checks(out, mode, scale, d, s, date, rec, via):
     if not np.abs(got - exp).max() <= 1e-9:
         out.fail("nutation-eop-correction" + hist, "iau1980.nutation(date) (EOP corrections included) is not the 1980 series plus dPsi, dEps of the record of the date",
                  inp, observed=got.tolist(), expected=exp.tolist())
+    # the kinematic terms of the equation of the equinoxes, isolated: equinox(kinematic=True) - equinox(kinematic=False) is
+    # 0.00264" sin Om + 0.000063" sin 2 Om from 1997-02-27 0h UTC (MJD 50506, that day included) on and 0 before (IERS TN 21).  The date was
+    # chosen by the IERS at a zero crossing of sin Om: on the very day the terms are ~5e-6", far below the 1 mas of the checks above.
+    kin = iau1980.equinox(date, eop_correction=False, kinematic=True) - iau1980.equinox(date, eop_correction=False, kinematic=False)
+    om = indep_nut80(t["ttt"], _t51[:1])[3]
+    kin_exp = (0.00264 * math.sin(om) + 0.000063 * math.sin(2 * om)) / 3600.0 if int(t["day"]) >= 50506 else 0.0
+    out.count(key=("kinematic", mode, scale, d, s, via), kind="kinematic-terms", side="from-50506" if int(t["day"]) >= 50506 else "before", **tag)
+    if not abs(kin - kin_exp) <= 1e-12:
+        out.fail("kinematic-terms" + (":switch-day" if abs(int(t["day"]) - 50506) <= 1 else "") + hist, "iau1980.equinox: the kinematic terms are not 0.00264\" sin Om + 0.000063\" sin 2 Om from MJD 50506 on (that day included) and 0 before",
+                 inp, observed=float(kin), expected=float(kin_exp))
     # CIRF->GCRF: the third column of the CIO matrix is (X, Y, .) with X = X_series(TT) + dX of the record: X - dX must be the same number
     # under every configuration that gives the text the same TT instant (it is the series alone)
     r, _ = blocks("CIRF", "GCRF")
@@ -997,7 +1214,9 @@ def oracle(ctx, widened):
                 # 1e-6 m / 1e-9 m/s, plus the resolution of a double at the largest distance involved (Sun-centred: 1.5e11 m -> 3e-5 m)
                 big_r = max(np.abs(np.array(x)[:3]).max() for x in (svA, svB, svAC))
                 big_v = max(np.abs(np.array(x)[3:]).max() for x in (svA, svB, svAC))
-                tp, tv = 1e-6 + 4e-15 * big_r, 1e-9 + 4e-15 * (big_v + 7.3e-5 * big_r)  # Earth-fixed intermediate: |w x r|
+                # Earth-fixed intermediate: |w x r|; a local orbital frame that accounts for its own rate (1.3e-3 rad/s in LEO) likewise
+                w_max = 1.3e-3 if any(family_of("", f).split(":")[1].split("-")[-1] in ("QSW", "TNW") for f in (a, b, c)) else 7.3e-5
+                tp, tv = 1e-6 + 4e-15 * big_r, 1e-9 + 4e-15 * (big_v + w_max * big_r)
                 if not (np.all(np.isfinite(svABC)) and np.all(np.abs(svABC[:3] - svAC[:3]) <= tp) and np.all(np.abs(svABC[3:] - svAC[3:]) <= tv)):
                     out.fail(family_of("compose", a, b, c), "A->B->C differs from A->C", {"eop": mode, "date": str(date), "frames": [a, b, c], "state": list(map(float, svA))},
                              observed=list(map(float, svABC)), expected=list(map(float, svAC)))
@@ -1046,9 +1265,35 @@ def oracle(ctx, widened):
                 # jd is one double (4e-5 s): Earth-fixed positions jitter by ~7.3e-5 rad/s * 2e-5 s * r; the slow precession/nutation rates are omitted by design (5e-5 m/s)
                 tol = 2e-3 * rmax / 7e6 + 2e-4
                 out.count(key=("vel", mode, b, str(date)), kind="velocity-derivative", eop=mode, target=fam.split(":")[1])
+                inp = {"eop": mode, "date": str(date), "frame": b, "kepl": list(map(float, kepl)), "ref_kepl": list(map(float, ref.copy(form="keplerian")))}
+                if b in att and not b.endswith("inert"):
+                    # orbit-attached QSW / TNW frame: the code hands no rate to expand (open findings C02-lof-no-rate-*).  The theorem
+                    # C02.lof_velocity_defect says what exactly is missing: d/dt(converted position) = converted velocity - w x rho with
+                    # w = lofRate (two-body reference, C02.lof_rate_twobody: h/r^2 about W for QSW, mu h/(r^3 v^2) about W for TNW).
+                    # The observed discrepancy must be that term and nothing else.
+                    pr, vr = np.array(ref)[:3], np.array(ref)[3:]
+                    hvec = np.cross(pr, vr)
+                    hn, rn, vn = np.linalg.norm(hvec), np.linalg.norm(pr), np.linalg.norm(vr)
+                    if b.endswith("QSW"):
+                        w3 = hn / rn ** 2
+                    else:
+                        # TNW: a . (c x v) / (h v^2) with a the acceleration of the reference, MEASURED on its own arc (whatever value of
+                        # mu the propagator uses; for two-body motion this is mu h / (r^3 v^2))
+                        va = {h_: np.array(_pool_last[0].propagate(date + timedelta(seconds=h_)))[3:] for h_ in (-2.0, -1.0, 1.0, 2.0)}
+                        acc = (4 * (va[1.0] - va[-1.0]) / 2.0 - (va[2.0] - va[-2.0]) / 4.0) / 3
+                        w3 = acc @ np.cross(hvec, vr) / (hn * vn ** 2)
+                    rho = np.array(sv0.copy(frame=b))[:3]
+                    missing = -np.cross([0.0, 0.0, w3], rho)
+                    out.count(key=("velterm", mode, b, str(date)), kind="velocity-lof-term", eop=mode, target=fam.split(":")[1], separation="far" if np.linalg.norm(rho) > 1e5 else "near")
+                    tol_l = tol + 1e-9 * np.linalg.norm(rho)
+                    # either the rate of the frame is accounted for (fd = vel), or the discrepancy is exactly the term the theorem names
+                    if not (np.all(np.abs(fd - vel) <= tol_l) or np.all(np.abs(fd - vel - missing) <= tol_l)):
+                        out.fail(fam.replace("velocity-derivative", "velocity-lof-term"), "in an orbit-attached local orbital frame the converted velocity differs from the derivative of the converted position "
+                                 "by something else than the rotation term -w x rho of the frame (w = h/r^2 for QSW, mu h/(r^3 v^2) for TNW, along W): theorem C02.lof_velocity_defect",
+                                 dict(inp, rho=list(map(float, rho)), w_lof=[0.0, 0.0, float(w3)]), observed=list(map(float, fd - vel)), expected=list(map(float, missing)))
+                        continue
                 if not np.all(np.abs(fd - vel) <= tol):
-                    out.fail(fam, "converted velocity is not the time derivative of the converted position",
-                             {"eop": mode, "date": str(date), "frame": b, "kepl": list(map(float, kepl)), "ref_kepl": list(map(float, ref.copy(form="keplerian")))},
+                    out.fail(fam, "converted velocity is not the time derivative of the converted position", inp,
                              observed=list(map(float, vel)), expected=list(map(float, fd)))
             # ---- 4. Earth rotation angle / sidereal time / polar motion / nutation / precession / rate against independent formulas
             #         evaluated with the EOP record of the current configuration (known independently of the library); 1980 vs 2010
@@ -1067,6 +1312,12 @@ def oracle(ctx, widened):
             offset_form_oracle(out, rng, 40 if big else 6)
         if mode in ("real", "zero", "missing"):
             attached_oracle(out, rng, scs, mode, 60 if big else 8)
+    # the days at which a branch of the providers switches, both sides, every run
+    set_eop("real")
+    for b_ in BRANCH_DAYS:
+        for d_ in (b_ - 1, b_, b_ + 1):
+            s_ = round(rng.uniform(100, 86000), 3)
+            earth_rotation_checks(out, "real", "UTC", d_, s_, Date(d_, s_), indep_record("real", d_ + s_ / 86400.0), "matrix")
     history_oracle(out, rng, big)
     reference_oracle(out, rng, big)
     # the same names registered again with another specification, the same instants before and after: "attached to X" follows the new X
@@ -1261,7 +1512,7 @@ class Visit:
     internals before them — then what the model is given is collected: the date arguments as a pure function of the TEXT of the
     date and the independently known EOP record of the current configuration (`pure_times`), the frame specification at the date."""
 
-    def __init__(self, out, rng, sc, mode, scale, d, s, s_utc, date, nconv, nxf, kind, orient_only=None, twice=False):
+    def __init__(self, out, rng, sc, mode, scale, d, s, s_utc, date, nconv, nxf, kind, orient_only=None, twice=False, ncen=0, pairs=()):
         import numpy as np
         from beyond.frames import iau1980, iau2010
         from beyond.frames.frames import get_frame
@@ -1275,9 +1526,10 @@ class Visit:
         if orient_only is not None:
             byori = {k: v for k, v in byori.items() if k in orient_only}
         last = None
-        for _ in range(nconv):
-            fa, fb = byori[rng.choice(list(byori))], byori[rng.choice(list(byori))]
-            if last is not None and rng.random() < 0.15:
+        todo = [(byori[sc.idx[na]], byori[sc.idx[nb]]) for na, nb in pairs] + [None] * nconv      # named pairs first (branch days), then random ones
+        for want in todo:
+            fa, fb = want or (byori[rng.choice(list(byori))], byori[rng.choice(list(byori))])
+            if want is None and last is not None and rng.random() < 0.15:
                 fa, fb = last                                   # the same request again
             last = (fa, fb)
             try:
@@ -1319,6 +1571,19 @@ class Visit:
                 res = f"raised {type(e).__name__}: {e}"
             self.xf.append((fa, fb, np.array(sa), res))
             out.count(key=("xf", mode, self.text, fa[0], fb[0], kind), nontrivial=fa[0] != fb[0], kind="frame-transform", pair=f"{fa[3] if fa[2] or fa[1] >= 10 else 'builtin'}>{fb[3] if fb[2] or fb[1] >= 10 else 'builtin'}", **tag)
+        # Center.convert_to alone: centre a -> centre b expressed in the orientation of a third frame; then the reverse request and the same
+        # request towards another orientation (a history on the same centre objects), each compared with the model
+        self.cen = []
+        for _ in range(ncen):
+            fa, fb, ft = rng.choice(sc.frames), rng.choice(sc.frames), rng.choice(sc.frames)
+            for ga, gb, gt in ((fa, fb, ft), (fb, fa, ft), (fa, fb, rng.choice(sc.frames))):
+                try:
+                    res = np.array(get_frame(ga[0]).center.convert_to(date, get_frame(gb[0]).center, get_frame(gt[0]).orientation), float)
+                except Exception as e:
+                    res = f"raised {type(e).__name__}: {e}"
+                self.cen.append((ga, gb, gt, res))
+                out.count(key=("cen", mode, self.text, ga[0], gb[0], gt[0], kind), nontrivial=ga[2] != gb[2], kind="centre-convert",
+                          pair=f"{ga[3] if ga[2] else 'Earth'}>{gb[3] if gb[2] else 'Earth'}", target=gt[3] if gt[1] >= 10 else "builtin", **tag)
         # ---- what the model is given
         rec = indep_record(mode, d + s_utc / 86400.0)
         self.rec_known = rec is not None
@@ -1412,6 +1677,34 @@ def correspondence(ctx):
             reqs.append(" ".join(["c02lof", str(tnw)] + fl(sv)))
             post.append(("lof", {"tnw": tnw, "sv": sv.tolist()}, local.to_local("TNW" if tnw else "QSW", sv, expanded=False).T.flatten(), 1e-10, 1e-14))
             out.count(key=reqs[-1], kind="lof-" + ("TNW" if tnw else "QSW"))
+        # the rotation rate of the local orbital frames: d/dt of the REAL to_local along a path, by Richardson central differences, against
+        # the model's -[w]x to_local with w = lofRate(p, v, a).  Paths: a synthetic one p + v s + a s^2/2 + j s^3/6 with an acceleration
+        # in a random direction (out of plane: all three components of w) and, every fourth case, the arc of the real Kepler propagator
+        k_ = _counter[0] = _counter[0] + 1
+        for tnw in (0, 1):
+            nm = "TNW" if tnw else "QSW"
+            acc = np.array([rng.gauss(0, 1) for _ in range(3)]) * rng.choice([0.0, 1e-3, 8.0])
+            if rng.random() < 0.3:
+                acc = -3.986e14 * sv[:3] / np.linalg.norm(sv[:3]) ** 3            # two-body
+            jerk = np.array([rng.gauss(0, 1e-2) for _ in range(3)])
+            path = lambda x: np.concatenate([sv[:3] + sv[3:] * x + acc * x * x / 2 + jerk * x ** 3 / 6, sv[3:] + acc * x + jerk * x * x / 2])
+            kind_ = "synthetic"
+            if k_ % 4 == 0:
+                # (the analytical J2 propagator is no candidate: its velocity is not d/dt of its position — secular drift of the elements)
+                from beyond.dates import timedelta
+                orb_ = make_orbit(kep, d0)
+                kind_ = "kepler-arc"
+                path = lambda x, orb_=orb_: np.array(orb_.propagate(d0 + timedelta(seconds=x)).copy(form="cartesian", frame="EME2000"))
+                hh_ = 2.0
+                acc = (4 * (path(hh_)[3:] - path(-hh_)[3:]) / (2 * hh_) - (path(2 * hh_)[3:] - path(-2 * hh_)[3:]) / (4 * hh_)) / 3
+            else:
+                hh_ = 0.5
+            P = lambda x: local.to_local(nm, path(x), expanded=False)
+            Pd = (4 * (P(hh_) - P(-hh_)) / (2 * hh_) - (P(2 * hh_) - P(-2 * hh_)) / (4 * hh_)) / 3
+            s0 = path(0.0)
+            reqs.append(" ".join(["c02lofrate", str(tnw)] + fl(s0) + fl(acc)))
+            post.append(("lofrate", {"tnw": tnw, "sv": s0.tolist(), "acc": acc.tolist(), "path": kind_}, ("rate", Pd.flatten()), 1e-6, 2e-9 if kind_ == "synthetic" else 2e-8))
+            out.count(key=reqs[-1], kind="lof-rate-" + nm, path=kind_, acceleration="two-body" if abs(acc @ np.cross(s0[:3], s0[3:])) < 1e-3 else "out-of-plane")
         lat, lon, alt = rng.uniform(-1.57, 1.57), rng.uniform(-3.14, 3.14), rng.uniform(-100, 5000)
         from beyond.utils.matrix import rot2, rot3
         reqs.append(" ".join(["c02topo"] + fl([lat, lon])))
@@ -1428,7 +1721,16 @@ def correspondence(ctx):
         set_eop(mode)
         for _ in range(ctx.n(14, 600) if mode == "real" else ctx.n(5, 150) if mode in ("zero", "missing") else ctx.n(3, 80)):
             d, s = rand_ds(rng) if rng.random() < 0.9 or mode in ("altdb", "patched") else rand_ds(rng, 57800, 58800)
-            visits.append(Visit(out, rng, rng.choice(scs), mode, "UTC", d, s, s, Date(d, s), 4, 6, "fresh"))
+            visits.append(Visit(out, rng, rng.choice(scs), mode, "UTC", d, s, s, Date(d, s), 4, 6, "fresh", ncen=2))
+    # A1b. the days at which a branch of the providers switches (iau1980.equinox: kinematic terms from MJD 50506 on), both sides, every run,
+    # through the edges that read it.  The model's guard is read from the AST and pinned by C02.kinematic_guard_pinned: a disagreement
+    # here is a deviation of the code from the pinned convention, reported with its input.
+    set_eop("real")
+    for b in BRANCH_DAYS:
+        for d in (b - 1, b, b + 1):
+            s_ = round(rng.uniform(100, 86000), 3)
+            visits.append(Visit(out, rng, scs[0], "real", "UTC", d, s_, s_, Date(d, s_), 0, 0, "branch-day",
+                                pairs=[("PEF", "TOD"), ("TOD", "PEF"), ("ITRF", "EME2000"), ("TEME", "PEF"), ("GCRF", "ITRF")]))
     # A2. the SAME instants under all five configurations in one process, varying orders, repeated requests: UTC texts (TAI-UTC, hence the
     # TT instant of the text, differs under 'missing') and TAI texts.  The model is asked call by call, statelessly: by the theorem
     # session_history_independent the history does not matter.
@@ -1439,7 +1741,7 @@ def correspondence(ctx):
             for i, d, s, s_utc in sub:
                 date = held[(mode, i)] if (mode, i) in held and rng.random() < 0.3 else Date(d, s, scale=scale)
                 held[(mode, i)] = date
-                visits.append(Visit(out, rng, rng.choice(scs), mode, scale, d, s, s_utc, date, 3, 3, "shared-" + scale))
+                visits.append(Visit(out, rng, rng.choice(scs), mode, scale, d, s, s_utc, date, 3, 3, "shared-" + scale, ncen=1))
     # A3. a history of Orientation.convert_to calls as ONE request to the model with the _nutation_series memo inside (sessionRun, c02seq):
     # UTC texts shared by configurations that disagree on TAI-UTC (before deb035a the code was history dependent here, ~2e-10 rad).
     # Orientation level, built-ins + station.
@@ -1461,7 +1763,7 @@ def correspondence(ctx):
         for mode in order[:ctx.n(3, 4)]:
             set_eop(mode)
             for d, s_ in rng.sample(rinst, ctx.n(2, 4)):
-                visits.append(Visit(out, rng, rsc, mode, "UTC", d, s_, s_, Date(d, s_), 0, ctx.n(8, 10), "attached-to-reference", twice=True))
+                visits.append(Visit(out, rng, rsc, mode, "UTC", d, s_, s_, Date(d, s_), 0, ctx.n(8, 10), "attached-to-reference", twice=True, ncen=2))
     # A4. the same NAMES registered again with another specification (other station coordinates, reference orbits, offsets), then the
     # same instants under the same configurations as before: a conversion follows what the name means NOW
     old = scs[0]
@@ -1470,7 +1772,7 @@ def correspondence(ctx):
     _scenarios[0] = Scenario(rng, idx, old.tag)
     for v in again[:ctx.n(6, 40)]:
         set_eop(v.mode)
-        visits.append(Visit(out, rng, _scenarios[0], v.mode, v.scale, v.d, v.s, v.s_utc, Date(v.d, v.s, scale=v.scale), 3, 4, "re-registered"))
+        visits.append(Visit(out, rng, _scenarios[0], v.mode, v.scale, v.d, v.s, v.s_utc, Date(v.d, v.s, scale=v.scale), 3, 4, "re-registered", ncen=1))
     set_eop("real")
     # ---- phase B: the series of the model at every TT century in play (one batched request per table)
     ttts = sorted({v.t["ttt"] for v in visits + seq} | {rsc.epoch_t["ttt"]})
@@ -1517,7 +1819,15 @@ def correspondence(ctx):
         ctoks = [str(len(chist))] + [str(x) for h in chist for x in h] + [str(len(v.cl))] + [t for c, (par, o, off) in v.cl.items() for t in [str(c), str(par), str(o)] + fl(off)]
         for fa, fb, res in v.conv:
             reqs.append(" ".join(["c02conv"] + D + htoks + etoks + [str(fa[1]), str(fb[1])]))
-            post.append(("convert", {"eop": v.mode, "date": v.text, "history": v.kind, "a": fa[0], "b": fb[0], "record": v.rec}, res, 1e-10, 1e-13))
+            post.append(("convert", {"eop": v.mode, "date": v.text, "history": v.kind, "a": fa[0], "b": fb[0], "record": v.rec}, res, 1e-12, 1e-14))     # observed agreement: a few ulp (same libm, same order of operations)
+        for ga, gb, gt, res in v.cen:
+            reqs.append(" ".join(["c02cen"] + D + htoks + etoks + ctoks + [str(ga[2]), str(gb[2]), str(gt[1])]))
+            inp = {"eop": v.mode, "date": v.text, "history": v.kind, "from_centre_of": ga[0], "to_centre_of": gb[0], "in_orientation_of": gt[0], "record": v.rec}
+            if isinstance(res, str):
+                post.append(("centre", inp, res, 0, 0))
+            else:
+                scale_p = max(np.abs(res[:3]).max(), 7e6)
+                post.append(("centre", inp, res, 1e-10, ("pv", 1e-9 * scale_p, 1e-9 * scale_p * 1e-3)))
         for fa, fb, sa, res in v.xf:
             reqs.append(" ".join(["c02xf"] + D + htoks + etoks + ctoks + [str(fa[1]), str(fa[2]), str(fb[1]), str(fb[2])] + fl(sa)))
             inp = {"eop": v.mode, "date": v.text, "history": v.kind, "from": fa[0], "to": fb[0], "state": list(map(float, sa)), "record": v.rec}
@@ -1557,6 +1867,12 @@ def correspondence(ctx):
                     continue
                 cmp_floats(out, "model-sequence", "Orientation.convert_to inside a history of calls (model: sessionRun with the _nutation_series memo)", cinp, res, " ".join(one), rtol=rtol, atol=atol)
             continue
+        if isinstance(real, tuple) and real[0] == "rate":
+            vals = [b2f(t) for t in rep.split()] if rep and rep[0].isdigit() else []
+            if len(vals) != 12 or not all(core.close(float(a), b, rtol=rtol, atol=atol) for a, b in zip(real[1], vals[3:])):
+                out.fail("model-lofrate", "d/dt of to_local along the path (finite differences on the real code) differs from the model's -[w]x to_local, w = lofRate(p, v, a)",
+                         inp, observed=[float(x) for x in real[1]], expected=vals[3:] or rep)
+            continue
         if isinstance(real, str):
             # the implementation raised where the model (the specification of the frame graph) yields a value
             if rep and rep[0].isdigit():
@@ -1570,9 +1886,13 @@ def correspondence(ctx):
             model = [b2f(t) for t in rep.split()]
             ok = all(abs(a - b) <= atol[1] for a, b in zip(real[:3], model[:3])) and all(abs(a - b) <= atol[2] for a, b in zip(real[3:], model[3:]))
             if not ok:
-                out.fail("model-" + kind, "Frame.transform differs between the implementation and the Lean model", inp, observed=[float(x) for x in real], expected=model)
+                out.fail("model-" + kind, ("Center.convert_to" if kind == "centre" else "Frame.transform") + " differs between the implementation and the Lean model", inp, observed=[float(x) for x in real], expected=model)
         else:
-            model = cmp_floats(out, "model-" + kind, kind, inp, real, rep, rtol=rtol, atol=atol)
+            n_before = len(out.failures)
+            model = cmp_floats(out, "model-" + kind + (":branch-day" if inp.get("history") == "branch-day" else ""), kind, inp, real, rep, rtol=rtol, atol=atol)
+            if inp.get("history") == "branch-day":
+                for f in out.failures[n_before:]:
+                    f["violates_property"] = True      # the model side is pinned by a theorem to the published convention
         out.sample({"request": req[:100] + "…", "impl": [float(x) for x in real][:6], "model": (model or [])[:6]}, limit=3)
     return out
 
